@@ -87,6 +87,7 @@ def _alarm(signum, frame):
 
 
 _FUNCS = {}
+_BUDGETS = {}      # per-part watchdog overrides (seconds), declared by a check module as BUDGETS = {'part': seconds}
 
 
 def _run_cell(job):
@@ -94,7 +95,7 @@ def _run_cell(job):
     fn = _FUNCS[part]
     t0 = time.time()
     signal.signal(signal.SIGALRM, _alarm)
-    signal.alarm(CASE_BUDGET_S)
+    signal.alarm(int(_BUDGETS.get(part, CASE_BUDGET_S)))
     try:
         fresh_world()
         res = fn(cell) or {}
@@ -371,6 +372,7 @@ def load_check(pid):
     import importlib
     mod = importlib.import_module(f'mc.checks.{pid.lower()}')
     _FUNCS.update(mod.PARTS)
+    _BUDGETS.update(getattr(mod, 'BUDGETS', {}))
     return mod
 
 
